@@ -827,6 +827,41 @@ func isLossyBlendingPossible(src, dst *image.NRGBA, rect image.Rectangle, qualit
 	return true
 }
 
+// increaseTransparency prepares a sub-frame that will be alpha-blended onto
+// the canvas: every non-opaque pixel that the blending check accepted because
+// it already matches the canvas underneath (exactly for lossless, "similar"
+// with equal alpha for lossy) is made fully transparent, so that blending
+// keeps the canvas pixel instead of compositing a translucent pixel onto
+// itself (which would raise its alpha). This is the step libwebp performs in
+// IncreaseTransparency() after IsLosslessBlendingPossible().
+//
+// prev is the canvas the frame is blended onto, sub the rect-sized copy of
+// the target canvas that is about to be encoded.
+func (e *AnimEncoder) increaseTransparency(prev, sub *image.NRGBA, rect image.Rectangle) {
+	maxDiff := 0
+	if !e.opts.Lossless {
+		maxDiff = qualityToMaxDiff(e.opts.Quality)
+	}
+	for y := rect.Min.Y; y < rect.Max.Y; y++ {
+		for x := rect.Min.X; x < rect.Max.X; x++ {
+			off := sub.PixOffset(x-rect.Min.X, y-rect.Min.Y)
+			a := sub.Pix[off+3]
+			if a == 0xFF || a == 0 {
+				continue
+			}
+			srcPx := prev.NRGBAAt(x, y)
+			dstPx := color.NRGBA{R: sub.Pix[off], G: sub.Pix[off+1], B: sub.Pix[off+2], A: a}
+			same := srcPx == dstPx
+			if !same && !e.opts.Lossless {
+				same = pixelsAreSimilar(srcPx, dstPx, maxDiff)
+			}
+			if same {
+				sub.Pix[off], sub.Pix[off+1], sub.Pix[off+2], sub.Pix[off+3] = 0, 0, 0, 0
+			}
+		}
+	}
+}
+
 // encodeSubFrame detects the bounding rectangle of changed pixels between the
 // previous canvas and the current canvas, encodes only that sub-rectangle, and
 // emits it to the muxer with the appropriate offset. When the changed area
@@ -869,6 +904,9 @@ func (e *AnimEncoder) encodeSubFrame(currCanvas *image.NRGBA, durMS int) error {
 	}
 
 	subImgNone := extractSubImage(currCanvas, rectNone)
+	if blendNone == BlendAlpha {
+		e.increaseTransparency(e.prevCanvas, subImgNone, rectNone)
+	}
 	bsNone, err := e.encodeFrame(subImgNone, e.opts.Lossless, e.opts.Quality)
 	if err != nil {
 		return fmt.Errorf("animation: encoding sub-frame (dispose-none): %w", err)
@@ -901,6 +939,9 @@ func (e *AnimEncoder) encodeSubFrame(currCanvas *image.NRGBA, durMS int) error {
 	}
 
 	subImgBG := extractSubImage(currCanvas, rectBG)
+	if blendBG == BlendAlpha {
+		e.increaseTransparency(prevDisposedCanvas, subImgBG, rectBG)
+	}
 	bsBG, err = e.encodeFrame(subImgBG, e.opts.Lossless, e.opts.Quality)
 	if err != nil {
 		// If encoding the BG candidate fails, fall through with DISPOSE_NONE.
